@@ -19,6 +19,9 @@ from concurrent.futures import ThreadPoolExecutor
 from lib.vlib import Inconclusive
 
 
+MAX_REPORTED = 150
+
+
 def _table(ctx, cfg, workers, timeout):
     r = ctx.tlc("Cbor_Tab", cfg, workers=workers, timeout=timeout, quiet=True)
     if r["errors"]:
@@ -63,12 +66,14 @@ def run(ctx):
     if res["table_inputs"] != nstrings + nshapes:
         raise Inconclusive("only %d of %d table inputs were cross-checked" % (res["table_inputs"], nstrings + nshapes))
 
-    for d in res["disagreements"] or []:
+    for d in (res["disagreements"] or [])[:MAX_REPORTED]:
         e = d["examples"][0]
         what = "%s decoding %s (%d bytes, %s) in %s mode: observed %s; specification: %s [%d occurrences, targets: %s]" % (
             e["target"], e["input_hex"], e["input_len"], e["input_kind"], e["mode"], e["observed"], e["expected"], d["count"], ", ".join(d["targets"][:8]))
         ctx.violation(d["key"], what, {"examples": d["examples"], "targets": d["targets"], "count": d["count"],
                                        "replay": "cbor.NewDecoder(bytes.NewReader(input)).Decode(new(T)) / cbor.Unmarshal(input, new(T)) for the target type T"})
+    if len(res["disagreements"] or []) > MAX_REPORTED:
+        ctx.notes["disagreement_keys_not_reported_individually"] = len(res["disagreements"]) - MAX_REPORTED
     if res["incomplete"]:
         raise Inconclusive("sweep incomplete: %s" % "; ".join(res["incomplete"])[:3000])
     if res["calls"] == 0 or res["ok_calls"] == 0:
